@@ -73,10 +73,10 @@ class P:
         # histories interleaved with Expand and Eval calls that assign (or must not)
         from props import xpgen as X
         NOGLOB, NOUNSET = X.NOGLOB, X.NOUNSET
-        un = [b"x", b"y", b"z", b"1", b"#", b"IFS", b"X"]
+        un = [b"x", b"y", b"z", b"1", b"#", b"IFS", b"X", "é".encode(), "日".encode(), b"\xe5", b"\xe9"]
 
         def aword(d=2):
-            n = rnd.choice(un).decode()
+            n = rnd.choice(un[:-2]).decode()
             k = rnd.random()
             inner = (lambda: aword(d - 1)) if d > 0 else (lambda: [X.L(rnd.choice(["v", "", "a b", "1"]))])
             if k < 0.22:
@@ -88,7 +88,7 @@ class P:
             if k < 0.66:
                 return [X.P(n, "#")]
             if k < 0.8:
-                return [X.A(X.L(rnd.choice(["%s=1", "%s++", "%s+=2", "--%s", "%s=%s+1", "%s", "1/0", "%s=1/0", "(%s=3)*0", "(1 ? %s : z) = 7", "(0 ? z : %s)++", "(%s) += 2"]).replace("%s", rnd.choice(["x", "y", "z"]))))]
+                return [X.A(X.L(rnd.choice(["%s=1", "%s++", "%s+=2", "--%s", "%s=%s+1", "%s", "1/0", "%s=1/0", "(%s=3)*0", "(1 ? %s : z) = 7", "(0 ? z : %s)++", "(%s) += 2"]).replace("%s", rnd.choice(["x", "y", "z", "é", "日", "x日"]))))]
             if k < 0.9:
                 return [X.Q('"', *inner())]
             return [X.L(rnd.choice(["lit", "", "~", "a*b"]))] + inner()
@@ -98,7 +98,7 @@ class P:
             return "X:%d:%s" % (rnd.choice([0, 0, 2, 4]), hx(" ".join(w)))
 
         def eop():
-            v = rnd.choice(["x", "y", "z"]); u = rnd.choice(["x", "y", "z"])
+            v = rnd.choice(["x", "y", "z", "é", "日", "x日"]); u = rnd.choice(["x", "y", "z", "é"])
             if rnd.random() < 0.35:
                 from props import c11 as A
                 # (syntactically valid expressions only: on a syntax error the rule actions of the part already parsed have
